@@ -23,7 +23,7 @@
 (* harness bookkeeping) stutter.  Steps of the code that leave no line     *)
 (* (end of the retain loops) are silent model steps taken with priority;   *)
 (* the unlock after run.end is composed with the next acquisition          *)
-(* (RunEndThenTickLock).                                                   *)
+(* (RunEndThenAcquire).                                                    *)
 (*                                                                         *)
 (* A line no action accepts is reported as DRIFT (the first one per        *)
 (* recorded run; the rest of that run is skipped, validation resumes at    *)
@@ -42,13 +42,15 @@ VARIABLES l,        \* next line
           hdr,      \* line of the current run's header (payload table)
           pend,     \* per injector thread: the call in progress
           pscan,    \* per pool thread: entry whose publication bit it has seen set, cancel check pending
+          relSince, \* the model has released the worker lock since the UI thread's previous line
+          rend,     \* the pool thread whose closure has reported run.end and whose unlock the model has not taken yet ("" if none)
           cnt,      \* items.count() as read by the tick in progress (-1: not read)
           expect,   \* what the last TickLockedWith decided, to be confirmed by the hooks that follow
           seen,     \* hooks confirmed since
           uicall,   \* API call of the UI thread in progress
           mode,     \* "run" | "skip" (after a drift, until the next header)
           cstat
-cv == <<l, hdr, pend, pscan, cnt, expect, seen, uicall, mode, cstat>>
+cv == <<l, hdr, pend, pscan, relSince, rend, cnt, expect, seen, uicall, mode, cstat>>
 allvars == <<vars, cv>>
 
 Ev == T[l]
@@ -72,9 +74,9 @@ RowOfV(v) ==
 BlankRow == [len |-> 0, sc |-> [p \in Pats |-> None]]
 
 Adv == l' = l + 1
-KeepCv == UNCHANGED <<hdr, pend, pscan, cnt, expect, seen, uicall, mode, cstat>>
+KeepCv == UNCHANGED <<hdr, pend, pscan, rend, rend, cnt, expect, seen, uicall, mode, cstat>>
 Stutter == UNCHANGED vars /\ KeepCv /\ Adv
-NoExpect == [snap |-> FALSE, spawn |-> FALSE, arm |-> FALSE, set |-> FALSE]
+NoExpect == [snap |-> FALSE, set |-> FALSE]
 
 \* ------------------------------------------------------------------ a new recorded run
 StartRun ==
@@ -82,9 +84,9 @@ StartRun ==
   /\ resv' = resv0 /\ wst' = wst0 /\ pub' = pub0 /\ data' = [s \in Streams |-> [it \in Items |-> BlankRow]]
   /\ cur' = 0 /\ pat' = 0 /\ patStatus' = "U" /\ state' = "Init" /\ snap' = snap0
   /\ lock' = "free" /\ canceled' = FALSE /\ shouldNotify' = FALSE /\ w' = w0 /\ ui' = ui0 /\ wk' = wk0
-  /\ notifyPending' = FALSE /\ wake' = TRUE /\ promise' = FALSE /\ lateArm' = FALSE /\ lastRunning' = FALSE
-  /\ ticks' = 0 /\ edits' = 0 /\ bad' = "ok"
-  /\ hdr' = l /\ pend' = [r \in Roles |-> NoPend] /\ pscan' = [r \in Roles |-> -1] /\ cnt' = -1
+  /\ notifyPending' = FALSE /\ wake' = TRUE /\ promise' = FALSE /\ lastRunning' = FALSE
+  /\ ticks' = 0 /\ edits' = 0 /\ bad' = "ok" /\ tails' = tails0
+  /\ hdr' = l /\ pend' = [r \in Roles |-> NoPend] /\ pscan' = [r \in Roles |-> -1] /\ rend' = "" /\ cnt' = -1
   /\ expect' = NoExpect /\ seen' = {} /\ uicall' = "" /\ mode' = "run"
   /\ cstat' = [cstat EXCEPT !.runs = @ + 1]
   /\ Adv
@@ -94,11 +96,11 @@ UiCall ==
   /\ IsMain /\ Ev.site = "call"
   /\ \/ /\ Ev.api = "reparse" /\ ReparseWith(Ev.pat, Ev.append) /\ KeepCv
      \/ /\ Ev.api = "tick" /\ ui.pc = "idle" /\ uicall' = "tick" /\ cnt' = -1 /\ expect' = NoExpect /\ seen' = {}
-        /\ UNCHANGED vars /\ UNCHANGED <<hdr, pend, pscan, mode, cstat>>
+        /\ UNCHANGED vars /\ UNCHANGED <<hdr, pend, pscan, rend, mode, cstat>>
      \/ /\ Ev.api = "restart" /\ ui.pc = "idle" /\ uicall' = (IF Ev.clear THEN "restart_clear" ELSE "restart_keep")
-        /\ UNCHANGED vars /\ UNCHANGED <<hdr, pend, pscan, cnt, expect, seen, mode, cstat>>
+        /\ UNCHANGED vars /\ UNCHANGED <<hdr, pend, pscan, rend, cnt, expect, seen, mode, cstat>>
      \/ /\ Ev.api = "drop_nucleo" /\ ui.pc = "idle" /\ uicall' = "drop"
-        /\ UNCHANGED vars /\ UNCHANGED <<hdr, pend, pscan, cnt, expect, seen, mode, cstat>>
+        /\ UNCHANGED vars /\ UNCHANGED <<hdr, pend, pscan, rend, cnt, expect, seen, mode, cstat>>
      \/ /\ Ev.api \in {"dump", "injector", "clone_injector", "drop_injector"} /\ UNCHANGED vars /\ KeepCv
   /\ Adv
 
@@ -111,10 +113,10 @@ UiRet ==
   /\ \/ /\ Ev.api = "tick" /\ uicall = "tick" /\ ui.pc = "idle"
         /\ Ev.changed = ui.changed /\ Ev.running = lastRunning
         /\ uicall' = "" /\ cstat' = [cstat EXCEPT !.ticks = @ + 1]
-        /\ UNCHANGED <<hdr, pend, pscan, cnt, expect, seen, mode>>
+        /\ UNCHANGED <<hdr, pend, pscan, rend, cnt, expect, seen, mode>>
      \/ /\ Ev.api = "dump" /\ SnapshotAgrees /\ cstat' = [cstat EXCEPT !.snapshots = @ + 1]
-        /\ UNCHANGED <<hdr, pend, pscan, cnt, expect, seen, uicall, mode>>
-     \/ /\ Ev.api \in {"restart", "drop_nucleo"} /\ uicall' = "" /\ UNCHANGED <<hdr, pend, pscan, cnt, expect, seen, mode, cstat>>
+        /\ UNCHANGED <<hdr, pend, pscan, rend, cnt, expect, seen, uicall, mode>>
+     \/ /\ Ev.api \in {"restart", "drop_nucleo"} /\ uicall' = "" /\ UNCHANGED <<hdr, pend, pscan, rend, cnt, expect, seen, mode, cstat>>
      \/ /\ Ev.api \in {"reparse", "injector", "clone_injector", "drop_injector"} /\ KeepCv
   /\ UNCHANGED vars /\ Adv
 
@@ -123,22 +125,23 @@ UiAtomic ==
   /\ IsMain /\ Ev.site = "atomic"
   /\ \/ /\ Ev.loc = "should_notify" /\ Ev.op = "store" /\ Ev.val = 0 /\ uicall = "tick" /\ TickBegin /\ KeepCv
      \/ /\ Ev.loc = "should_notify" /\ Ev.op = "store" /\ Ev.val = 1
-        /\ IF ui.pc = "arm" THEN TickArm /\ UNCHANGED seen
-           ELSE shouldNotify /\ expect.arm /\ UNCHANGED vars /\ seen' = seen \cup {"notify1"}
-        /\ UNCHANGED <<hdr, pend, pscan, cnt, expect, uicall, mode, cstat>>
+        /\ (TickArm \/ TickStoreNotify) /\ KeepCv
      \/ /\ Ev.loc = "canceled" /\ Ev.op = "store" /\ Ev.val = 1
         /\ \/ uicall = "tick" /\ TickCancel
            \/ uicall = "restart_clear" /\ Restart(TRUE)
            \/ uicall = "restart_keep" /\ Restart(FALSE)
            \/ uicall = "drop" /\ Drop
         /\ KeepCv
-     \/ /\ Ev.loc = "canceled" /\ Ev.op = "store" /\ Ev.val = 0 /\ ~canceled /\ expect.spawn /\ UNCHANGED vars
-        /\ seen' = seen \cup {"cancel0"} /\ UNCHANGED <<hdr, pend, pscan, cnt, expect, uicall, mode, cstat>>
+     \/ /\ Ev.loc = "canceled" /\ Ev.op = "store" /\ Ev.val = 0 /\ ~canceled /\ ui.pc = "spawn" /\ UNCHANGED vars
+        /\ seen' = seen \cup {"cancel0"} /\ UNCHANGED <<hdr, pend, pscan, rend, cnt, expect, uicall, mode, cstat>>
      \/ /\ Ev.loc = "inflight" /\ Ev.op = "load"
         /\ IF uicall = "tick" /\ ui.pc \in {"lockwait", "try"}
            THEN /\ StreamOf(Ev.vec) = cur /\ Ev.val = resv[cur]
-                /\ (TickLock \/ RunEndThenTickLock)
-                /\ cnt' = Ev.val /\ UNCHANGED <<hdr, pend, pscan, expect, seen, uicall, mode, cstat>>
+                /\ (TickLock \/ RunEndThenAcquire)
+                /\ cnt' = Ev.val /\ rend' = (IF lock = "free" THEN rend ELSE "") /\ UNCHANGED <<hdr, pend, pscan, expect, seen, uicall, mode, cstat>>
+           ELSE IF uicall = "tick" /\ ui.pc = "locked" /\ cnt = -1      \* the lock was obtained by the second attempt
+           THEN /\ StreamOf(Ev.vec) = cur /\ Ev.val = resv[cur] /\ UNCHANGED vars
+                /\ cnt' = Ev.val /\ UNCHANGED <<hdr, pend, pscan, rend, expect, seen, uicall, mode, cstat>>
            ELSE UNCHANGED vars /\ KeepCv
      \/ /\ Ev.loc \in {"active", "bucket"} /\ UNCHANGED vars /\ KeepCv
   /\ Adv
@@ -147,31 +150,34 @@ UiHook ==
   /\ IsMain
   /\ \/ /\ Ev.site = "tick.begin" /\ ui.pc \in {"cancel", "try"} /\ UNCHANGED vars /\ KeepCv
      \/ /\ Ev.site = "tick.lock" /\ Ev.a[1] = 1 /\ ui.pc = "lockwait" /\ UNCHANGED vars /\ KeepCv
-     \/ /\ Ev.site = "tick.lock" /\ Ev.a[1] = 0 /\ (TickLock \/ RunEndThenTickLock) /\ KeepCv   \* lock_arc() returned
+     \/ /\ Ev.site = "tick.lock" /\ Ev.a[1] = 0 /\ (TickLock \/ RunEndThenAcquire)   \* lock_arc() returned
+        /\ rend' = (IF lock = "free" THEN rend ELSE "") /\ UNCHANGED <<hdr, pend, pscan, cnt, expect, seen, uicall, mode, cstat>>
      \/ /\ Ev.site = "tick.try_lock" /\ Ev.a[1] = 1 /\ ui.pc = "try"
-        /\ (expect.set => (expect.snap = ("snap" \in seen) /\ expect.spawn = ("spawn" \in seen)))
-        /\ expect' = NoExpect /\ seen' = {} /\ UNCHANGED vars /\ UNCHANGED <<hdr, pend, pscan, cnt, uicall, mode, cstat>>
+        /\ (expect.set => expect.snap = ("snap" \in seen))
+        /\ expect' = NoExpect /\ seen' = {} /\ UNCHANGED vars /\ UNCHANGED <<hdr, pend, pscan, rend, cnt, uicall, mode, cstat>>
      \/ /\ Ev.site = "tick.try_lock" /\ Ev.a[1] = 0 /\ UNCHANGED vars /\ KeepCv
-     \/ /\ Ev.site = "tick.try_lock_failed" /\ TickTryFail /\ KeepCv
-     \/ /\ Ev.site = "tick.armed" /\ ui.pc = "idle" /\ shouldNotify /\ UNCHANGED vars /\ KeepCv
+     \/ /\ Ev.site = "tick.try_lock_failed" /\ TickTryFailAt(lock # "free" \/ relSince) /\ KeepCv
+     \/ /\ Ev.site = "tick.armed" /\ ui.pc = "retry" /\ shouldNotify /\ UNCHANGED vars /\ KeepCv
+     \/ /\ Ev.site = "tick.retry_lock" /\ Ev.a[1] = 1 /\ (TickRetryOk \/ RunEndThenAcquire)
+        /\ rend' = (IF lock = "free" THEN rend ELSE "") /\ UNCHANGED <<hdr, pend, pscan, cnt, expect, seen, uicall, mode, cstat>>
+     \/ /\ Ev.site = "tick.retry_lock" /\ Ev.a[1] = 0 /\ TickRetryFailAt(lock # "free" \/ relSince) /\ KeepCv
      \/ /\ Ev.site = "tick.locked"
         /\ Bit(Ev.a[1], 0) = w.running /\ Bit(Ev.a[1], 1) = w.wasCanceled /\ Bit(Ev.a[1], 2) = TLCancelling
         /\ Ev.a[2] = w.last - Len(w.inflight) /\ Ev.a[3] = w.last
         /\ (TLCancelling \/ cnt >= 0)
         /\ Bit(Ev.a[1], 3) = TLRunning(cnt)
         /\ TickLockedWith(cnt)
-        /\ expect' = [snap |-> TLDoSnap, spawn |-> TLRunning(cnt), arm |-> TLRunning(cnt) /\ ~TLCancelling, set |-> TRUE] /\ seen' = {} /\ cnt' = -1
-        /\ UNCHANGED <<hdr, pend, pscan, uicall, mode, cstat>>
+        /\ expect' = [snap |-> TLDoSnap, set |-> TRUE] /\ seen' = {} /\ cnt' = -1
+        /\ UNCHANGED <<hdr, pend, pscan, rend, uicall, mode, cstat>>
      \/ /\ Ev.site = "tick.snapshot_update" /\ expect.snap /\ Ev.a[1] = snap.count /\ Ev.a[2] = Len(snap.matches)
-        /\ seen' = seen \cup {"snap"} /\ UNCHANGED vars /\ UNCHANGED <<hdr, pend, pscan, cnt, expect, uicall, mode, cstat>>
-     \/ /\ Ev.site = "tick.spawn" /\ expect.spawn /\ lock = "w" /\ wk.pc = "begin"
-        /\ "cancel0" \in seen /\ expect.arm = ("notify1" \in seen)
-        /\ Ev.a[1] = StatusCode[wk.status] /\ Ev.a[2] = B2N(wk.cleared)
-        /\ seen' = seen \cup {"spawn"} /\ UNCHANGED vars /\ UNCHANGED <<hdr, pend, pscan, cnt, expect, uicall, mode, cstat>>
+        /\ seen' = seen \cup {"snap"} /\ UNCHANGED vars /\ UNCHANGED <<hdr, pend, pscan, rend, cnt, expect, uicall, mode, cstat>>
+     \/ /\ Ev.site = "tick.spawn" /\ "cancel0" \in seen
+        /\ Ev.a[1] = StatusCode[IF ui.phase = 1 THEN ui.stt ELSE "U"] /\ Ev.a[2] = B2N(ui.cleared) /\ Ev.a[3] = B2N(TLCancelling)
+        /\ TickSpawn /\ KeepCv
      \/ /\ Ev.site = "tick.end" /\ ui.pc = "idle"
-        /\ (expect.set => (expect.snap = ("snap" \in seen) /\ expect.spawn = ("spawn" \in seen)))
+        /\ (expect.set => expect.snap = ("snap" \in seen))
         /\ Ev.a[1] = B2N(ui.changed) /\ Ev.a[2] = B2N(lastRunning)
-        /\ expect' = NoExpect /\ seen' = {} /\ UNCHANGED vars /\ UNCHANGED <<hdr, pend, pscan, cnt, uicall, mode, cstat>>
+        /\ expect' = NoExpect /\ seen' = {} /\ UNCHANGED vars /\ UNCHANGED <<hdr, pend, pscan, rend, cnt, uicall, mode, cstat>>
      \/ /\ Ev.site = "drop.lock" /\ ui.pc = "dropped" /\ UNCHANGED vars /\ KeepCv
      \/ /\ Ev.site = "restart" /\ uicall \in {"restart_clear", "restart_keep"} /\ canceled /\ state = "Cleared" /\ UNCHANGED vars /\ KeepCv
      \/ /\ Ev.site \in {"spawn", "joined", "start", "end", "quiescent", "rule", "rule.expired",
@@ -183,18 +189,18 @@ UiHook ==
 Writer ==
   /\ IsW
   /\ \/ /\ Ev.site = "call" /\ Ev.api = "push" /\ pend' = [pend EXCEPT ![Ev.role] = [vals |-> <<Ev.v>>, stream |-> Ev.stream, base |-> -1]]
-        /\ UNCHANGED vars /\ UNCHANGED <<hdr, pscan, cnt, expect, seen, uicall, mode, cstat>>
+        /\ UNCHANGED vars /\ UNCHANGED <<hdr, pscan, rend, cnt, expect, seen, uicall, mode, cstat>>
      \/ /\ Ev.site = "call" /\ Ev.api = "extend" /\ pend' = [pend EXCEPT ![Ev.role] = [vals |-> Ev.vals, stream |-> Ev.stream, base |-> -1]]
-        /\ UNCHANGED vars /\ UNCHANGED <<hdr, pscan, cnt, expect, seen, uicall, mode, cstat>>
+        /\ UNCHANGED vars /\ UNCHANGED <<hdr, pscan, rend, cnt, expect, seen, uicall, mode, cstat>>
      \/ /\ Ev.site = "ret" /\ Ev.api \in {"push", "extend"} /\ pend' = [pend EXCEPT ![Ev.role] = NoPend]
-        /\ UNCHANGED vars /\ UNCHANGED <<hdr, pscan, cnt, expect, seen, uicall, mode, cstat>>
+        /\ UNCHANGED vars /\ UNCHANGED <<hdr, pscan, rend, cnt, expect, seen, uicall, mode, cstat>>
      \/ /\ Ev.site \in {"call", "ret"} /\ Ev.api = "drop_injector" /\ UNCHANGED vars /\ KeepCv
      \/ /\ Ev.site = "atomic" /\ Ev.loc = "inflight" /\ Ev.op = "fetch_add"
         /\ LET p == pend[Ev.role] IN
            /\ p.stream = StreamOf(Ev.vec) /\ Ev.arg = Len(p.vals) /\ Ev.val = resv[p.stream]
            /\ Reserve(p.stream, [k \in 1..Len(p.vals) |-> RowOfV(p.vals[k])])
            /\ pend' = [pend EXCEPT ![Ev.role].base = Ev.val]
-        /\ UNCHANGED <<hdr, pscan, cnt, expect, seen, uicall, mode, cstat>>
+        /\ UNCHANGED <<hdr, pscan, rend, cnt, expect, seen, uicall, mode, cstat>>
      \/ /\ Ev.site = "atomic" /\ Ev.loc = "active" /\ Ev.op = "store"
         /\ LET p == pend[Ev.role]  it == Idx(Ev.b, Ev.i) IN
            /\ it >= p.base /\ it < p.base + Len(p.vals) /\ Publish(p.stream, it)
@@ -217,7 +223,7 @@ PoolActiveLoad ==
         \/ /\ wk.pc \in {"tscan0", "tscan"} /\ wk.todo # {} /\ it = MinOf(wk.todo) /\ TScanItem /\ KeepCv
         \/ /\ wk.pc = "scan" /\ it \in wk.todo /\ pscan[Ev.role] = -1
            /\ IF set THEN /\ pscan' = [pscan EXCEPT ![Ev.role] = it] /\ UNCHANGED vars
-                          /\ UNCHANGED <<hdr, pend, cnt, expect, seen, uicall, mode, cstat>>
+                          /\ UNCHANGED <<hdr, pend, rend, cnt, expect, seen, uicall, mode, cstat>>
                      ELSE ScanItem(it) /\ KeepCv
         \/ /\ wk.pc \in {"rescore", "sort"} /\ set /\ UNCHANGED vars /\ KeepCv      \* get_unchecked: must be published
   /\ Adv
@@ -234,7 +240,7 @@ PoolAtomic ==
         /\ \/ /\ wk.pc = "rescore" /\ IF canceled THEN UNCHANGED vars ELSE RescoreCheck
               /\ KeepCv
            \/ /\ wk.pc = "scan" /\ pscan[Ev.role] >= 0 /\ ScanItem(pscan[Ev.role])
-              /\ pscan' = [pscan EXCEPT ![Ev.role] = -1] /\ UNCHANGED <<hdr, pend, cnt, expect, seen, uicall, mode, cstat>>
+              /\ pscan' = [pscan EXCEPT ![Ev.role] = -1] /\ UNCHANGED <<hdr, pend, rend, cnt, expect, seen, uicall, mode, cstat>>
            \/ /\ wk.pc = "sort" /\ UNCHANGED vars /\ KeepCv
      \/ /\ Ev.loc = "should_notify" /\ Ev.op = "load" /\ (Ev.val = 1) = shouldNotify /\ NRead /\ KeepCv
   /\ Adv
@@ -248,7 +254,7 @@ PoolHook ==
   /\ IsPool
   /\ \/ /\ Ev.site = "run.begin"
         /\ Ev.a[1] = StatusCode[wk.status] /\ Ev.a[2] = B2N(wk.cleared) /\ Ev.a[3] = w.last /\ Ev.a[4] = Len(w.inflight)
-        /\ RunBegin /\ cstat' = [cstat EXCEPT !.worker_runs = @ + 1] /\ UNCHANGED <<hdr, pend, pscan, cnt, expect, seen, uicall, mode>>
+        /\ RunBegin /\ cstat' = [cstat EXCEPT !.worker_runs = @ + 1] /\ UNCHANGED <<hdr, pend, pscan, rend, cnt, expect, seen, uicall, mode>>
      \/ /\ Ev.site = "run.rescore_item" /\ (\E k \in wk.rtodo : w.matches[k][1] = Ev.a[1]) /\ RescoreOne(PosOfIdx(Ev.a[1])) /\ KeepCv
      \/ /\ Ev.site = "par.rescore" /\ Ev.a[1] = 1 /\ wk.pc \in {"rescore", "sort"} /\ UNCHANGED vars /\ KeepCv
      \/ /\ Ev.site = "par.rescore" /\ Ev.a[1] = 0
@@ -258,12 +264,15 @@ PoolHook ==
      \/ /\ Ev.site = "par.scan" /\ Ev.a[1] = 0 /\ ScanDone /\ KeepCv
      \/ /\ Ev.site = "run.sort_begin" /\ wk.pc = "sort" /\ Ev.a[1] = Len(w.matches) /\ UNCHANGED vars /\ KeepCv
      \/ /\ Ev.site = "run.sort_end" /\ Ev.a[2] = Len(w.matches) /\ Ev.a[3] = wk.unmatched /\ SortStepWith(Ev.a[1] = 1) /\ KeepCv
-     \/ /\ Ev.site = "run.notify_check" /\ wk.pc = "nread"
-        /\ Ev.a[2] = w.last /\ Ev.a[3] = Len(w.inflight) /\ Ev.a[4] = Len(w.matches) /\ UNCHANGED vars /\ KeepCv
+     \/ /\ Ev.site = "run.unlocked"
+        /\ IF rend = Ev.role THEN wk.pc = "end" /\ Ev.a[1] = B2N(wk.fin) /\ RunEnd
+           ELSE UNCHANGED vars            \* the model has taken this unlock already: an acquisition was recorded first
+        /\ rend' = (IF rend = Ev.role THEN "" ELSE rend) /\ UNCHANGED <<hdr, pend, pscan, cnt, expect, seen, uicall, mode, cstat>>
      \/ /\ Ev.site = "notify" /\ Notify /\ KeepCv
-     \/ /\ Ev.site = "run.end" /\ wk.pc = "end"
+     \/ /\ Ev.site = "run.end" /\ wk.pc = "end" /\ rend = ""
         /\ Ev.a[1] = B2N(w.wasCanceled) /\ Ev.a[2] = w.last /\ Ev.a[3] = Len(w.inflight) /\ Ev.a[4] = Len(w.matches)
-        /\ UNCHANGED vars /\ KeepCv
+        /\ rend' = Ev.role /\ UNCHANGED vars /\ UNCHANGED <<hdr, pend, pscan, cnt, expect, seen, uicall, mode, cstat>>
+     \/ /\ Ev.site = "run.done" /\ UNCHANGED vars /\ KeepCv
      \/ /\ Ev.site \in {"run.scan_item", "run.remove_in_flight", "matcher.use", "entry.read", "par.sort", "entry.drop", "bucket.dealloc"}
         /\ UNCHANGED vars /\ KeepCv
   /\ Adv
@@ -271,14 +280,14 @@ PoolHook ==
 \* ------------------------------------------------------------------ composition
 Handled == UiCall \/ UiRet \/ UiAtomic \/ UiHook \/ Writer \/ PoolActiveLoad \/ PoolAtomic \/ PoolHook
 \* steps of the code that leave no line: the end of the two retain loops and of the rescoring region
-Silent == (ResetDone \/ RescoreDone) /\ UNCHANGED cv
+Silent == (ResetDone \/ RescoreDone) /\ UNCHANGED <<l, hdr, pend, pscan, rend, cnt, expect, seen, uicall, mode, cstat>>
 
 Drift ==
   /\ PrintT(ToJson([ev |-> "DRIFT", line |-> l, seq |-> Ev.seq, run |-> T[hdr].run, scenario |-> T[hdr].scenario, role |-> Ev.role, site |-> Ev.site,
                     uipc |-> ui.pc, wkpc |-> wk.pc, lock |-> lock, canceled |-> canceled, should_notify |-> shouldNotify,
                     last |-> w.last, inflight |-> w.inflight, nmatches |-> Len(w.matches), resv |-> resv[w.items], cnt |-> cnt]))
   /\ mode' = "skip" /\ cstat' = [cstat EXCEPT !.drifted_runs = @ + 1]
-  /\ UNCHANGED vars /\ UNCHANGED <<hdr, pend, pscan, cnt, expect, seen, uicall>> /\ Adv
+  /\ UNCHANGED vars /\ UNCHANGED <<hdr, pend, pscan, rend, cnt, expect, seen, uicall>> /\ Adv
 
 EndsRun == Ev.site \in {"abort", "end"}
 
@@ -290,10 +299,12 @@ TraceNext ==
      ELSE IF ENABLED Handled THEN Handled
      ELSE IF Ev.site = "abort" THEN Stutter     \* the library crashed (a panic is data; judged by the monitors)
      ELSE Drift
+  /\ relSince' = IF lock # "free" /\ lock' = "free" THEN TRUE
+                 ELSE IF l' # l /\ Ev.role = "main" THEN FALSE ELSE relSince
 
 TraceInit ==
   /\ InitCore /\ data = [s \in Streams |-> [it \in Items |-> BlankRow]]
-  /\ l = 1 /\ hdr = 1 /\ pend = [r \in Roles |-> NoPend] /\ pscan = [r \in Roles |-> -1] /\ cnt = -1
+  /\ l = 1 /\ hdr = 1 /\ pend = [r \in Roles |-> NoPend] /\ pscan = [r \in Roles |-> -1] /\ relSince = FALSE /\ rend = "" /\ cnt = -1
   /\ expect = NoExpect /\ seen = {} /\ uicall = "" /\ mode = "skip"
   /\ cstat = [runs |-> 0, drifted_runs |-> 0, ticks |-> 0, snapshots |-> 0, worker_runs |-> 0]
 
